@@ -14,7 +14,7 @@ VERIF = os.path.dirname(os.path.dirname(os.path.abspath(__file__)))
 REPO = os.environ.get("VERIF_REPO", "/repo")
 BUILD = os.path.join(VERIF, "build")
 CONTRACTS = os.path.join(VERIF, "contracts")
-EVIDENCE = os.path.join(VERIF, "evidence")
+EVIDENCE = os.environ.get("VERIF_EVIDENCE_DIR") or os.path.join(VERIF, "evidence")
 REPLAYS = os.path.join(BUILD, "replays")
 
 SCAN_WORDS = ("assume(", "admit(", "external_body", "assume_specification", "verif_havoc", "external_fn_specification")
